@@ -1,6 +1,7 @@
 package props
 
 import (
+	"github.com/multiformats/go-multiaddr"
 	"context"
 	"fmt"
 	"math/rand"
@@ -232,6 +233,12 @@ func c14One(c *vf.Ctx, sub string, i int, r *rand.Rand, ids []Ident) {
 				case 0, 1: // explicit sync with queried head
 					explicitSync(p)
 				case 2: // announcement
+					if rr.Intn(5) == 0 {
+						// ... that names an address no sync client can be made from: a failed announce-triggered sync
+						// (one error notification), followed by the same head with the real address
+						_ = s.Announce(context.Background(), h, peer.AddrInfo{ID: p.id.ID, Addrs: []multiaddr.Multiaddr{multiaddr.StringCast("/ip4/127.0.0.1/tcp/1")}})
+						c.Inc("announcements_with_an_unusable_address")
+					}
 					_ = s.Announce(context.Background(), h, p.front.AddrInfo())
 				default: // announcement whose sync fails (404 on the head block): one error notification
 					bad := h.String()
@@ -481,6 +488,9 @@ func c14One(c *vf.Ctx, sub string, i int, r *rand.Rand, ids []Ident) {
 				explicitEmits++
 			}
 		case "async.exit":
+			if a := ast[e.G]; a != nil && !a.entered && a.emits > 1 {
+				c.Fail(sub, i, "announce-triggered-sync-produced-several-notifications", fmt.Sprintf("publisher %s head #%d: the handling goroutine could not start a sync and sent %d notifications", short(a.peer), byID[a.peer].chain.Pos(a.head), a.emits), wit())
+			}
 			if a := ast[e.G]; a != nil && a.entered {
 				c.Inc("announce_triggered_syncs_checked")
 				if a.emits != 1 {
